@@ -634,6 +634,59 @@ func c13(e *env) {
 		w.Add(rig.Case{Desc: map[string]interface{}{"kind": "retry", "keys": g.Keys, "opaques": g.Opaques, "quiet": g.Quiet, "served": ns},
 			Coq: gal.App("K6Retry", gal.List(items), gal.List(sg), gal.List(rg)), Nontrivial: ns > 0 && ns < n, Tags: tags})
 	}
+	// (A2) start-up: handlers created while the pool's first backend connection cannot be
+	// established yet (the backend starts listening later). Whatever such a handler acknowledges
+	// must have reached the backend; nothing may hang once the backend is up.
+	nstart := 3
+	if thorough {
+		nstart = 15
+	}
+	for i := 0; i < nstart; i++ {
+		fb := fakemc.New()
+		fb.SetNow(cNow)
+		sock := newSock(e)
+		os.Remove(sock)
+		opts := batched.Opts{BatchSize: 4, BatchDelayMicros: 200}
+		type res struct {
+			who   int
+			err   error
+			early bool
+		}
+		listening := int32(0)
+		out := make(chan res, 4)
+		for who := 0; who < 3; who++ {
+			go func(who int) {
+				time.Sleep(time.Duration(who*40) * time.Millisecond) // the first one blocks dialling, the others arrive in that window
+				h := batched.NewHandler(sock, opts)
+				err := h.Set(common.SetRequest{Key: []byte(fmt.Sprintf("startup-%d", who)), Data: []byte(fmt.Sprintf("value-%d", who)), Flags: uint32(who)})
+				out <- res{who, err, atomic.LoadInt32(&listening) == 0}
+			}(who)
+		}
+		time.Sleep(time.Duration(200+r.Intn(200)) * time.Millisecond)
+		l, lerr := fb.ListenUnix(sock)
+		if lerr != nil {
+			rig.Die("listen: %v", lerr)
+		}
+		atomic.StoreInt32(&listening, 1)
+		in := map[string]interface{}{"kind": "startup", "handlers": 3}
+		for k := 0; k < 3; k++ {
+			select {
+			case x := <-out:
+				if x.err == nil {
+					if ent, ok := fb.Dump()[fmt.Sprintf("startup-%d", x.who)]; !ok || string(ent.Value) != fmt.Sprintf("value-%d", x.who) {
+						w.Fail(rig.GoFailure{Kind: "counterexample", What: "a set through a handler created while the pool had no backend connection yet was acknowledged but never reached the backend",
+							Input: in, Detail: fmt.Sprintf("handler %d: err=nil, returned before the backend was listening: %v, stored: %v", x.who, x.early, ok)})
+					}
+				}
+			case <-time.After(30 * time.Second):
+				w.Fail(rig.GoFailure{Kind: "counterexample", What: "a handler created before the backend was reachable got no outcome within 30 s after the backend came up", Input: in})
+				k = 3
+			}
+		}
+		w.Count("startup-round")
+		l.Close()
+		fb.CloseAll()
+	}
 	// (B) cuts of pooled connections under load
 	ncut := 30
 	if thorough {
